@@ -68,8 +68,9 @@ fn remote_coq(r: &Remote) -> String {
 fn app_name(a: u64) -> String { if a == 1 { APP.to_string() } else { format!("otherapp{}", a) } }
 fn invite_uid(i: u64) -> [u8; 16] { uid_of(5000 + i) }
 
-fn make_invite(ids: &BTreeMap<u64, Ident>, i: u64, app: u64, signer: Option<u64>) -> Invite {
-    let mut inv = Invite { invite_id: invite_uid(i), application: app_name(app), invite_sign: vec![] };
+fn make_invite(ids: &BTreeMap<u64, Ident>, i: u64, app: u64, signer: Option<u64>) -> Invite { make_invite_uid(ids, invite_uid(i), app, signer) }
+fn make_invite_uid(ids: &BTreeMap<u64, Ident>, uid: [u8; 16], app: u64, signer: Option<u64>) -> Invite {
+    let mut inv = Invite { invite_id: uid, application: app_name(app), invite_sign: vec![] };
     inv.invite_sign = match signer { Some(s) => ids[&s].sk.sign(&inv.hash()), None => vec![7u8; 64] };
     inv
 }
@@ -205,22 +206,26 @@ async fn instance(me: &Ident, tag: &str) -> Instance {
 fn gen_ops(rng: &mut Rng, directed: Option<usize>) -> Vec<Op> {
     match directed {
         Some(0) => return vec![Op::Create, Op::Lookup(TokRef::Inv(1), 2), Op::Consume(TokRef::Inv(1), 2), Op::Lookup(TokRef::Inv(1), 3), Op::Consume(TokRef::Inv(1), 3), Op::Lookup(TokRef::Peer(2), 2), Op::Lookup(TokRef::Peer(3), 3)],
-        Some(1) => return vec![Op::Accept(Some((7, 1, Some(2)))), Op::Consume(TokRef::Inv(7), 2), Op::Consume(TokRef::Inv(7), 2), Op::Lookup(TokRef::Inv(7), 4)],
+        Some(1) => return vec![Op::Accept(Some((27, 1, Some(2)))), Op::Consume(TokRef::Inv(27), 2), Op::Consume(TokRef::Inv(27), 2), Op::Lookup(TokRef::Inv(27), 4)],
         // the same invitation bytes accepted twice, then presented twice
-        Some(3) => return vec![Op::Accept(Some((7, 1, Some(2)))), Op::Accept(Some((7, 1, Some(2)))), Op::Consume(TokRef::Inv(7), 2), Op::Lookup(TokRef::Inv(7), 2), Op::Consume(TokRef::Inv(7), 2), Op::Lookup(TokRef::Inv(7), 2), Op::Consume(TokRef::Inv(7), 2)],
-        Some(2) => return vec![Op::Accept(Some((8, 2, Some(2)))), Op::Accept(None), Op::Lookup(TokRef::Inv(8), 2), Op::Consume(TokRef::Inv(9), 3), Op::Create, Op::Consume(TokRef::Inv(1), 2), Op::Lookup(TokRef::Peer(2), 3), Op::Lookup(TokRef::Peer(2), 2), Op::Lookup(TokRef::Peer(1), 1), Op::Lookup(TokRef::Own, 1), Op::Lookup(TokRef::Own, 2)],
+        Some(3) => return vec![Op::Accept(Some((27, 1, Some(2)))), Op::Accept(Some((27, 1, Some(2)))), Op::Consume(TokRef::Inv(27), 2), Op::Lookup(TokRef::Inv(27), 2), Op::Consume(TokRef::Inv(27), 2), Op::Lookup(TokRef::Inv(27), 2), Op::Consume(TokRef::Inv(27), 2)],
+        Some(2) => return vec![Op::Accept(Some((28, 2, Some(2)))), Op::Accept(None), Op::Lookup(TokRef::Inv(28), 2), Op::Consume(TokRef::Inv(29), 3), Op::Create, Op::Consume(TokRef::Inv(1), 2), Op::Lookup(TokRef::Peer(2), 3), Op::Lookup(TokRef::Peer(2), 2), Op::Lookup(TokRef::Peer(1), 1), Op::Lookup(TokRef::Own, 1), Op::Lookup(TokRef::Own, 2)],
+        // accepted again after it was consumed: a new acceptance, a new (single) use
+        Some(4) => return vec![Op::Accept(Some((27, 1, Some(2)))), Op::Consume(TokRef::Inv(27), 2), Op::Lookup(TokRef::Inv(27), 2), Op::Accept(Some((27, 1, Some(2)))), Op::Consume(TokRef::Inv(27), 2), Op::Consume(TokRef::Inv(27), 2)],
+        // this instance accepts an invitation it created itself
+        Some(5) => return vec![Op::Create, Op::Accept(Some((1, 1, Some(1)))), Op::Lookup(TokRef::Inv(1), 2), Op::Consume(TokRef::Inv(1), 2), Op::Lookup(TokRef::Inv(1), 3), Op::Consume(TokRef::Inv(1), 3)],
         _ => {}
     }
     let n = 2 + rng.below(7) as usize;
     let mut ops = vec![];
     let mut created = 0u64;
-    let reuse = rng.chance(1, 3);     // most scenarios consume an invitation at most once
+    let reuse = rng.chance(1, 2);     // most scenarios consume an invitation at most once
     let mut used: Vec<u64> = vec![];
     for _ in 0..n {
-        let pick_inv = |rng: &mut Rng, created: u64| -> u64 { match rng.below(8) { 0 => 6 + rng.below(4), _ => if created == 0 { 1 } else { 1 + rng.below(created) } } };
+        let pick_inv = |rng: &mut Rng, created: u64| -> u64 { match rng.below(6) { 0 | 1 => 20 + rng.below(3), _ => if created == 0 { 1 } else { 1 + rng.below(created) } } };
         ops.push(match rng.below(10) {
             0..=2 => { created += 1; Op::Create }
-            3 => Op::Accept(if rng.chance(1, 6) { None } else { Some((6 + rng.below(3), if rng.chance(3, 4) { 1 } else { 2 }, Some(2 + rng.below(3)))) }),
+            3 => Op::Accept(if rng.chance(1, 6) { None } else { Some((if created > 0 && rng.chance(1, 8) { 1 + rng.below(created) } else { 20 + rng.below(3) }, if rng.chance(3, 4) { 1 } else { 2 }, Some(2 + rng.below(3)))) }),
             4..=5 => Op::Lookup(match rng.below(5) { 0 | 1 => TokRef::Inv(pick_inv(rng, created)), 2 => TokRef::Own, _ => TokRef::Peer(1 + rng.below(4)) }, 1 + rng.below(4)),
             _ => {
                 let mut inv = pick_inv(rng, created);
@@ -236,7 +241,7 @@ fn gen_ops(rng: &mut Rng, directed: Option<usize>) -> Vec<Op> {
 async fn run_ops(ids: &BTreeMap<u64, Ident>, inst: &mut Instance, ops: &[Op]) -> (Vec<i64>, Vec<String>) {
     // invitation rank -> uid; created ones get their real uid, foreign ones a fixed uid
     let mut inv_uid: BTreeMap<u64, [u8; 16]> = BTreeMap::new();
-    for i in 6..12 { inv_uid.insert(i, invite_uid(i)); }
+    for i in 20..30 { inv_uid.insert(i, invite_uid(i)); }
     let mut created = 0u64;
     let mut obs = vec![];
     let mut terms = vec![];
@@ -259,7 +264,7 @@ async fn run_ops(ids: &BTreeMap<u64, Ident>, inst: &mut Instance, ops: &[Op]) ->
                 terms.push("OAccept Garbage".to_string());
             }
             Op::Accept(Some((i, app, signer))) => {
-                let inv = make_invite(ids, *i, *app, *signer);
+                let inv = make_invite_uid(ids, *inv_uid.get(i).unwrap_or(&invite_uid(*i)), *app, *signer);
                 let r = inst.pm.accept_invite(&bincode::serialize(&inv).unwrap()).await;
                 obs.push(r.is_ok() as i64); obs.push(0);
                 terms.push(format!("OAccept (InviteFor {} {} {})", gn(*i), gn(*app), gon(*signer)));
@@ -313,7 +318,7 @@ async fn main() {
     // ---------------- invitations: directed (known finding first), then generated
     let n_inv = scale(40, 400);
     for n in 0..n_inv {
-        let ops = gen_ops(&mut rng, if n < 4 { Some(n) } else { None });
+        let ops = gen_ops(&mut rng, if n < 6 { Some(n) } else { None });
         let mut inst = instance(&ids[&1], &format!("pm_{}_{}", seed(), n)).await;
         let (obs, terms) = run_ops(&ids, &mut inst, &ops).await;
         let dir = inst.dir.clone();
@@ -324,7 +329,7 @@ async fn main() {
         for (i, op) in ops.iter().enumerate() { if let Op::Consume(TokRef::Inv(v), _) = op { if obs[2 * i + 1] == 1 { *succ.entry(*v).or_insert(0) += 1; } } }
         let twice = succ.values().any(|c| *c > 1);
         *stats.entry(format!("invites.{}", if twice { "CONSUMED-TWICE" } else if succ.is_empty() { "nothing-consumed" } else { "consumed-once" })).or_insert(0) += 1;
-        cases.push(Case { kind: if n == 0 { "K1-owned-invite-twice".to_string() } else if n == 1 { "K1-received-invite-twice".to_string() } else if n == 3 { "K3-invite-registered-twice".to_string() } else if n < 4 { "invites-directed".to_string() } else { "invites".to_string() },
+        cases.push(Case { kind: if n == 0 { "K1-owned-invite-twice".to_string() } else if n == 1 { "K1-received-invite-twice".to_string() } else if n == 3 { "K3-invite-registered-twice".to_string() } else if n < 6 { "invites-directed".to_string() } else { "invites".to_string() },
                           coq: format!("CInvites 1%N {{| s_bytes := 1%N; s_pub := 1%N |}} 1%N {}", glist(&terms)), obs,
                           meta: json!({"ops": ops.len(), "consumed_twice": twice}) });
     }
